@@ -7,12 +7,16 @@ SPEC = {
                  "site and stop observations on real multi-node scenarios (netsim), both evaluated in Coq",
     "level": "partial",
     "level_text": "Machine-checked Coq theorems for EVERY configuration (any number of readers, lighthouse workers, conntrack tickers, DNS responder, "
-                  "sshd) and EVERY sequence of Start (succeeding or failing in activation), Stop (atomic or split where it releases the state "
+                  "sshd; any number of configured routines = udp listeners, any number of queues the device really opens, udp backend readable by "
+                  "several goroutines or not) and EVERY sequence of Start (succeeding or failing in activation), Stop (atomic or split where it releases the state "
                   "lock, so other calls interleave), RebindUDPServer and fatal reader errors: whenever the state is Stopped every goroutine's exit "
                   "guard holds and every resource ever opened is closed (context cancelled, sockets, tun, construction token, DNS server, sshd "
                   "listener); a Stop from any reachable state ends Stopped and released (a Stop racing a half-way Stop returns at once and the "
                   "first one's completion releases); a second Stop is a no-op and nothing restarts, reopens or re-closes afterwards; a Start "
-                  "whose activation fails releases what Main acquired; Stop's tunnel-closing phase (context already cancelled, interface not yet closed) "
+                  "whose activation fails releases what Main acquired; every udp listener Main opened is closed once Stopped, also those that "
+                  "never got a reader because activate clamped the routines (ledger: each listener and device queue the node was given is tracked "
+                  "by the harness itself, independent of what the interface still references, over routines 1-4 x device queues 1..routines x "
+                  "multi-reader yes/no x stop before Start / right after / after use, and on real nodes with routines 1-4); Stop's tunnel-closing phase (context already cancelled, interface not yet closed) "
                   "performs no channel send that only a cancelled goroutine could serve: the one such channel is the lighthouse query channel, and a "
                   "table regenerated on every run from the real Interface.send (every message type x rebind state x node kind) shows a CloseTunnel "
                   "never queues a lighthouse query, while in state Stopping such a send would have no live receiver. PARTIAL by design: the theorems are about the lifecycle logic and the "
